@@ -97,17 +97,17 @@ TECH.update({
 })
 
 
-LEVEL_TEXT['C10'] = 'Kernel only. Unbounded deductive proof (Verus) that errexit applies iff the option is on and no frame of the runtime stack, at any depth, is a Condition frame, that apply_errexit exits exactly on a failing status there, and that apply_result moves the exit status of a divert into $?; bounded Kani sibling on real Env values (stacks of <= 3 frames). The three places that push Condition frames (conditions of if/while/until, negated pipelines, every pipeline of an and-or list but the last) are proved to run their commands with the frame on top, against an opaque model of command execution and an assumed RAII contract of the frame guard. The status a command made only of assignments leaves (perform_assignments), the single consultation of errexit after a simple command (SimpleCommand::execute) and after a failed redirection of a compound command (FullCompoundCommand::execute), and the three error handlers of handle.rs (which error interrupts or exits with which status, each reported once) are proved against ghost monitors of their opaque callees. What built-in dispatch does with an error of a special built-in, and the read-eval loop, are not decided.'
-NOTE['C10'] = 'Kernel only (the dynamic context stack decision). Trusted: Verus/Z3, Kani/CBMC; Env reduced to three fields in the Verus unit; OptionSet::get and slice::contains assumed; RandomState::new stubbed in Kani. The RAII composition of the frame guard is assumed (destructors are not modelled). Opaque callees behind ghost monitors in the units condframe, assignstatus, simplecmd, errhandle, fullcompound. Not covered: the other callers of apply_errexit (pipelines, subshells, built-ins), errors of special built-ins, the read-eval loop.'
-TECH['C10'] = 'contract-based deductive verification (Verus, Z3) of Env::errexit_is_applicable / apply_errexit / apply_result and of the three sites that push Frame::Condition (evaluate_condition, negated Pipeline::execute, AndOrList::execute), of perform_assignments, SimpleCommand::execute, FullCompoundCommand::execute and the Handle::handle implementations of handle.rs (opaque callees observed by ghost monitors) + bounded Kani sibling on the real crate'
+LEVEL_TEXT['C10'] = 'Kernel only. Unbounded deductive proof (Verus) that errexit applies iff the option is on and no frame of the runtime stack, at any depth, is a Condition frame, that apply_errexit exits exactly on a failing status there, and that apply_result moves the exit status of a divert into $?; bounded Kani sibling on real Env values (stacks of <= 3 frames). The three places that push Condition frames (conditions of if/while/until, negated pipelines, every pipeline of an and-or list but the last) are proved to run their commands with the frame on top, against an opaque model of command execution and an assumed RAII contract of the frame guard. The status a command made only of assignments leaves (perform_assignments), the single consultation of errexit after a simple command (SimpleCommand::execute) and after a failed redirection of a compound command (FullCompoundCommand::execute), and the three error handlers of handle.rs (which error interrupts or exits with which status, each reported once) are proved against ghost monitors of their opaque callees. The read-eval loop is proved to end on every divert when non-interactive and to survive only an interrupt of a command or a syntax error when interactive. What built-in dispatch does with an error of a special built-in is not decided.'
+NOTE['C10'] = 'Kernel only (the dynamic context stack decision). Trusted: Verus/Z3, Kani/CBMC; Env reduced to three fields in the Verus unit; OptionSet::get and slice::contains assumed; RandomState::new stubbed in Kani. The RAII composition of the frame guard is assumed (destructors are not modelled). Opaque callees behind ghost monitors in the units condframe, assignstatus, simplecmd, errhandle, fullcompound. Not covered: the other callers of apply_errexit (pipelines, subshells, built-ins), errors of special built-ins.'
+TECH['C10'] = 'contract-based deductive verification (Verus, Z3) of Env::errexit_is_applicable / apply_errexit / apply_result and of the three sites that push Frame::Condition (evaluate_condition, negated Pipeline::execute, AndOrList::execute), of perform_assignments, SimpleCommand::execute, FullCompoundCommand::execute, the read-eval loop and the Handle::handle implementations of handle.rs (opaque callees observed by ghost monitors) + bounded Kani sibling on the real crate'
 
 LEVEL_TEXT['C09'] = 'Kernel only. Unbounded deductive proof (Verus) on the real perform / RedirGuard code, against an assumed model of the descriptor table: a redirection saves the target in a close-on-exec descriptor >= 10, changes the target only, refuses targets the shell reserves, and leaves the table unchanged on every failure; the guard restores exactly the initial table (undo_redirs, Drop) for any number of redirections, or closes every backing copy (preserve_redirs). Each operator opens its file with the access mode and flags of XCU 2.7, noclobber never truncates or hands out an existing regular file, <& / >& only name suitable open descriptors, and every opener leaves nothing open on failure. Three callers of the guard (execute_function, execute_external_utility, FullCompoundCommand::execute) perform the redirections first, keep them in effect exactly while assignments and command run, and do nothing more after a failed one. The expansion of operands and the other uses of the guard are assumed or not decided; level other because the claim is a kernel over a model of the OS side.'
 NOTE['C09'] = 'Kernel only. Trusted: Verus/Z3; the descriptor-table model of Close/Dup/Fcntl; assumed contracts for expansion and for writing the here-document body; await points dropped; loops over drain() checked in an equivalent form; in unit funcall RAII of the guard assumed as a whole. Not covered: here-document content, the callers of RedirGuard other than execute_function / execute_external_utility / FullCompoundCommand::execute, VirtualSystem.'
 TECH['C09'] = 'contract-based deductive verification (Verus, Z3) of perform / replace_target / RedirGuard::{new, perform_redir, perform_redirs, undo_redirs, preserve_redirs, drop}, the openers (open_normal, open_file, open_file_noclobber, copy_fd, here_doc::open_fd) and move_fd_internal against a ghost descriptor table, and of three callers of the guard (execute_function, execute_external_utility, FullCompoundCommand::execute) against a ghost monitor'
 
-LEVEL_TEXT['C18'] = 'Kernel only. Unbounded deductive proof (Verus) on the real FdReader2::next_line against an assumed model of read(2): each read asks for one byte, the bytes consumed from the descriptor are exactly the returned line, ending at the first newline, on success and on error; nothing that follows the line is taken from the input; bounded Kani check that read_char of the read built-in decodes and consumes exactly one character under every chunking of the reads. The lexer / read-eval-loop half of the property (a new line is requested only when needed, each command runs before the next is read) is async interpreter code and is not decided; level other because the claim is a kernel over a model of the OS side.'
-NOTE['C18'] = 'Kernel only (the line reader). Trusted: Verus/Z3; the synchronous model of Read; assumed contract of slice::from_mut; await points dropped; text conversion uninterpreted. Kani part bounded (read_char: inputs <= 4 bytes, every chunking). Not covered: lexer buffer management, runner, Memory / Echo / prompt decorators, cross-process sharing of the descriptor, the backslash processing of read().'
-TECH['C18'] = 'contract-based deductive verification (Verus, Z3) of FdReader2::next_line (loop invariant over the consumed byte stream of a model descriptor) + bounded Kani harness-encoded contract of read_char (all inputs <= 4 bytes x all chunkings) on the real crate'
+LEVEL_TEXT['C18'] = 'Kernel only. Unbounded deductive proof (Verus) on the real FdReader2::next_line against an assumed model of read(2): each read asks for one byte, the bytes consumed from the descriptor are exactly the returned line, ending at the first newline, on success and on error; nothing that follows the line is taken from the input; bounded Kani check that read_char of the read built-in decodes and consumes exactly one character under every chunking of the reads. The read-eval loop (read_eval_loop_impl) is proved, against a monitor of its opaque parse / run calls, to parse a line only when the previous command is over, to run each command once right after parsing it, and to parse every line in the mode the current options give; that the lexer requests a new line only when its buffer is exhausted is inside the opaque parse call and is not decided; level other because the claim is a kernel over a model of the OS side.'
+NOTE['C18'] = 'Kernel only (the line reader). Trusted: Verus/Z3; the synchronous model of Read; assumed contract of slice::from_mut; await points dropped; text conversion uninterpreted. Kani part bounded (read_char: inputs <= 4 bytes, every chunking). Not covered: lexer buffer management, Memory / Echo / prompt decorators, cross-process sharing of the descriptor, the backslash processing of read().'
+TECH['C18'] = 'contract-based deductive verification (Verus, Z3) of FdReader2::next_line (loop invariant over the consumed byte stream of a model descriptor) and of read_eval_loop_impl / read_eval_loop / interactive_read_eval_loop (monitor automaton of the opaque parse and run calls) + bounded Kani harness-encoded contract of read_char (all inputs <= 4 bytes x all chunkings) on the real crate'
 
 LEVEL_TEXT['C02'] = 'Kernels only. Unbounded deductive proofs (Verus): the command search resolves a name in the POSIX order (special built-in, function, other built-in, external utility; a slash means a path) and settles the path and the not-found / unusable errors as documented; break n / continue n leave min(n, enclosing loops) loops or fail outside a loop; while / until loops hand on the first divert of condition or body with exactly one level taken off and end with the status of the last execution of their body; for loops run their body once per value in order, right after assigning it, in a Loop frame, decode break / continue the same way and have status 0 without values; case tests its items in order, runs a body only after its patterns matched or after `;&`, stops at `;;`, and has the status of the last body executed (0 if none or empty); and-or lists short-circuit left to right, ! inverts the status of commands that ended normally, if runs the branch of the first condition that held; SimpleCommand::execute runs exactly the executor of the classified target, once; the return built-in asks for Divert::Return with its operand (or $?), a function body runs once in its own context and that divert leaves only that function; execute_function / execute_external_utility run their target at most once, only after redirections and assignments succeeded, and a utility that is not found leaves 127. Everything a command does is an opaque call observed by ghost monitors. Bounded Kani check (stacks of <= 3-4 frames) of Stack::loop_count. The statement as a whole (every program, every $?) is whole-interpreter async code and is not decided; level other because of that and of the bounded part.'
 NOTE['C02'] = 'Kernels only (command search order; break/continue levels; while/until/for/case; and-or, !, if; simple-command dispatch; function call, external utility). Trusted: Verus/Z3, Kani/CBMC; ghost views on the environment traits; search_path assumed; loop_count assumed in Verus and bounded-checked in Kani; opaque callees behind ghost monitors; RAII of frame / context / redirection guards assumed; await points dropped. Not covered: pattern matching inside case, multi-command pipelines and subshells, built-in execution, exit, Env::builtin, PATH walking.'
